@@ -152,17 +152,17 @@ class Units:
                         changed = True
 
 
-def in_scope(f):
-    return f.file.endswith(SCOPE_FILES) or f.path in SCOPE_FNS or (f.root in SCOPE_FNS if f.root else False)
+def in_scope(f, files=SCOPE_FILES, fns=SCOPE_FNS):
+    return f.file.endswith(files) or f.path in fns or (f.root in fns if f.root else False)
 
 
-def run(prog):
+def run(prog, files=SCOPE_FILES, fns=SCOPE_FNS, floor_fns=40, floor_sites=15):
     RULE = "R-UNIT"
     obs = []
     n_fn = n_sites = 0
     seen_scope = set()
     for f in sorted(prog.fns.values(), key=lambda x: x.path):
-        if not in_scope(f) or "#[derive" in " ".join(f.exp or []) or "/tests" in f.file or f.path.endswith("::tests::test"):
+        if not in_scope(f, files, fns) or "#[derive" in " ".join(f.exp or []) or "/tests" in f.file or f.path.endswith("::tests::test"):
             continue
         seen_scope.add(f.file)
         if f.path in EXEMPT:
@@ -226,7 +226,7 @@ def run(prog):
                 obs.append(bad(RULE, "%s:%s" % (short_path(f.path), k), site(f, line), "unit confusion in the position pipeline: %s" % why))
         elif checked:
             obs.append(ok(RULE, short_path(f.path), site(f), "%d comparisons / additions / stores of positions, all within one unit" % checked))
-    floors = [Floor(RULE, "functions of the position pipeline", n_fn, 40), Floor(RULE, "unit-carrying sites checked", n_sites, 15)]
+    floors = [Floor(RULE, "functions in scope", n_fn, floor_fns), Floor(RULE, "unit-carrying sites checked", n_sites, floor_sites)]
     return obs, floors, {"unit_functions": n_fn, "unit_sites": n_sites}
 
 
